@@ -2,6 +2,7 @@
 #include "hcommon.h"
 #include <unistd.h>
 #include <ctype.h>
+#include <math.h>
 #include <signal.h>
 #include <fcntl.h>
 #include <sys/stat.h>
@@ -113,6 +114,8 @@ static int  lw_dchoose(ESL_RANDOMNESS *rc, const double *p, int N)
   double roll = esl_random(rc), norm = 0.0, sum = 0.0; int i;
   for (i = 0; i < N; i++) norm += p[i];
   lw_chk(!(roll < lw_zero / norm));                                                /* L4 */
+  lw_chk(roll < 1.0);                                                               /* L5 */
+  if (norm > 0. && isfinite(norm)) { volatile double nn = norm; lw_chk(lw_beq(nn / nn, 1.0)); }   /* L5 */
   for (i = 0; i < N; i++) { lw_chk(lw_beq(sum + lw_zero, sum)); sum += p[i]; }      /* L1 at every running sum */
   for (sum = 0.0, i = 0; i < N; i++) { sum += p[i]; if (roll < sum / norm) return i; }
   return -1;
